@@ -104,7 +104,7 @@ def run_item(item, kind, props, lane, tier, log):
         if os.path.exists(src):
             os.symlink(src, os.path.join(root, name))
     try:
-        if kind == "seeded":
+        if kind in ("seeded", "neutralpatch"):
             subprocess.run(["git", "apply", "--unsafe-paths", "--directory=" + tree, item["patch"]], check=True, cwd="/")
         else:
             apply_edits(tree, item["edits"])
@@ -143,6 +143,14 @@ def main():
         items = json.load(open(os.path.join(VERIF, "selftest/mutants.json")))["mutants"]
     elif a.kind == "neutral":
         items = json.load(open(os.path.join(VERIF, "selftest/neutral.json")))["neutral"]
+    elif a.kind == "neutralpatch":
+        # behaviour-preserving refactorings written by sub-agents: selftest/neutral_patches/<id>/patch.diff
+        items = []
+        nd = os.path.join(VERIF, "selftest", "neutral_patches")
+        for d in sorted(os.listdir(nd)) if os.path.isdir(nd) else []:
+            pp = os.path.join(nd, d, "patch.diff")
+            if os.path.exists(pp):
+                items.append({"id": d, "patch": pp, "expect": []})
     else:
         items = []
         sd = os.path.join(VERIF, "seeded")
@@ -157,7 +165,7 @@ def main():
     jobs = []
     for it in items:
         if a.props == "expect":
-            props = [p for p in it.get("expect", reg) if p in reg] if a.kind != "neutral" else reg
+            props = [p for p in it.get("expect", reg) if p in reg] if a.kind not in ("neutral", "neutralpatch") else reg
         elif a.props == "all":
             props = reg
         elif a.props == "allfast":
@@ -188,13 +196,14 @@ def main():
         shutil.rmtree(SCRATCH, ignore_errors=True)
     bad = 0
     print("\n== summary (%s) ==" % a.kind)
+    neutral_like = a.kind in ("neutral", "neutralpatch")
     for r in results:
         if "error" in r:
             print("%-40s ERROR %s" % (r["id"], r["error"]))
             bad += 1
             continue
         for pid, c in r["checks"].items():
-            want = 0 if a.kind == "neutral" else 1
+            want = 0 if a.kind in ("neutral", "neutralpatch") else 1
             ok = c["exit"] == want
             if not ok:
                 bad += 1
